@@ -79,13 +79,42 @@ Definition lib_hyp_ok (lib : bytes -> result attrs) (layout : arg) : bool :=
   | _ => true
   end.
 
+(* ssh.ParsePublicKey + attribute builder on a decoded key blob, as recorded *)
+Definition key_of_oracle (oracle : list arg) (key : bytes) : result keyinfo :=
+  match assoc_bytes key oracle with
+  | Some (AL [AZ 0%Z; AL [AB t; a]]) => Ok (t, attrs_of_arg a)
+  | Some (AL [AZ 2%Z]) => Panic "oracle"
+  | Some _ => Err "oracle"
+  | None => Err "oracle-missing"
+  end.
+
+(* the modelled line parsers (Model/Containers.v auth_line / hosts_line) *)
+Definition model_lib (hosts : bool) (blobs : list arg) : bytes -> result attrs :=
+  if hosts then ssh_hosts_lib (key_of_oracle blobs) else ssh_auth_lib (key_of_oracle blobs).
+
+(* ... against the library's answer for every chunk of the file *)
+Definition lib_agrees (lib : bytes -> result attrs) (oracle : list arg) : bool :=
+  forallb (fun row => arg_eqb (obs_result (fun a => arg_of_info (Info [] a [])) (lib (arg_bytes (arg_nth 0 row))))
+                              (match arg_nth 1 row with
+                               | AL [AZ 0%Z; a] => AL [AZ 0%Z; arg_of_info (Info [] (attrs_of_arg a) [])]
+                               | o => o
+                               end)) oracle.
+
+(* the files are computed with the modelled line parsers (fields split by the model, key blobs answered by the
+   recorded library); the recorded per-chunk answers of the library serve to compare the two (lib_agrees) *)
 Definition run_ssh (hosts : bool) (input : arg) : arg :=
   let data := arg_bytes (arg_nth 1 input) in
-  let lib := lib_of (arg_list (arg_nth 2 input)) in
+  let lib := model_lib hosts (arg_list (arg_nth 6 input)) in
   let mine := if hosts then known_hosts lib data else authorized_keys lib data in
   out3 mine (arg_list (arg_nth 3 input))
        [if hosts then bs "SSHKnownHosts" else bs "SSHAuthorizedKeys"]
-       (render_ok_ssh (arg_nth 4 input) data && lib_hyp_ok lib (arg_nth 4 input)).
+       (render_ok_ssh (arg_nth 4 input) data && lib_hyp_ok lib (arg_nth 4 input)
+        && lib_agrees lib (arg_list (arg_nth 2 input))).
+
+(* one line through the modelled line parser *)
+Definition run_sshline (input : arg) : arg :=
+  obs_result (fun a => AL (map (fun nv => AL [AB (fst nv); AB (snd nv)]) a))
+             (model_lib (arg_bool (arg_nth 0 input)) (arg_list (arg_nth 2 input)) (arg_bytes (arg_nth 1 input))).
 
 (* ---------- PEM ---------- *)
 Definition lastn {A} (k : nat) (l : list A) : list A := drop (length l - k) l.
@@ -101,11 +130,30 @@ Definition desc_of (oracle : list arg) (b : pblock) : result info :=
   | None => Err "oracle-missing"
   end.
 
+(* a block of the layout, as the theorems of Props/C06.v write it down *)
+Definition ablock_of_arg (it : arg) : ablock :=
+  mkablock (arg_bytes (arg_nth 2 it)) (map arg_bytes (arg_list (arg_nth 4 it))) (arg_bytes (arg_nth 3 it))
+           (arg_nat (arg_nth 6 it)) (arg_bool (arg_nth 5 it)) (arg_bool (arg_nth 7 it)).
+
+(* the file is the concatenation of the items' texts, and the text of every block is its armor *)
 Definition render_ok_pem (layout : arg) (data : bytes) : bool :=
   match layout with
-  | AL [AL items] => bytes_eqb (concat (map (fun it => arg_bytes (arg_nth 1 it)) items)) data
+  | AL [AL items] =>
+      bytes_eqb (concat (map (fun it => arg_bytes (arg_nth 1 it)) items)) data
+      && forallb (fun it => negb (arg_Z (arg_nth 0 it) =? 0)%Z
+                            || bytes_eqb (armor (ablock_of_arg it)) (arg_bytes (arg_nth 1 it))) items
   | _ => true
   end.
+
+(* the model of encoding/pem.Decode (Model/Pem.v) against the real decoder, at every "-----BEGIN " of the data *)
+Definition dec_agrees (oracle : list arg) (data : bytes) : bool :=
+  forallb (fun row =>
+             match arg_nth 1 row, pem_dec (lastn (arg_nat (arg_nth 0 row)) data) with
+             | AL [AB t; AB b; k], Some (blk, r') =>
+                 bytes_eqb t (pb_type blk) && bytes_eqb b (pb_bytes blk) && Nat.eqb (arg_nat k) (length r')
+             | AL [], None => true
+             | _, _ => false
+             end) oracle.
 
 (* the pem.Decode hypothesis of C06_pem_bundle, sampled: at the start of every well-formed block of the
    layout, Decode returns that block and exactly what follows its armor *)
@@ -130,11 +178,14 @@ Definition pem_hyp_ok (dec : bytes -> option (pblock * bytes)) (layout : arg) (d
   | _ => true
   end.
 
+(* PEMFile is computed with the modelled decoder; the recorded answers of the real one only serve to
+   compare the two decoders (dec_agrees) and to re-evaluate the old sampled hypothesis (pem_hyp_ok) *)
 Definition run_pem (input : arg) : arg :=
   let data := arg_bytes (arg_nth 1 input) in
-  let mine := pem_file (dec_of (arg_list (arg_nth 2 input))) (desc_of (arg_list (arg_nth 3 input))) data in
+  let mine := pem_file pem_dec (desc_of (arg_list (arg_nth 3 input))) data in
   out3 mine (arg_list (arg_nth 4 input)) [bs "PEMFile"]
-       (render_ok_pem (arg_nth 5 input) data && pem_hyp_ok (dec_of (arg_list (arg_nth 2 input))) (arg_nth 5 input) data).
+       (render_ok_pem (arg_nth 5 input) data && pem_hyp_ok (dec_of (arg_list (arg_nth 2 input))) (arg_nth 5 input) data
+        && dec_agrees (arg_list (arg_nth 2 input)) data).
 
 (* ---------- keystores ---------- *)
 Definition secret_of (oracle : list arg) (off : N) (rest : bytes) : result (N * bytes * bytes) :=
@@ -199,6 +250,7 @@ Definition run_jks (input : arg) : arg :=
 Definition run_C06 (op : bytes) (input : arg) : arg :=
   if bytes_eqb op (bs "akeys") then run_ssh false input
   else if bytes_eqb op (bs "khosts") then run_ssh true input
+  else if bytes_eqb op (bs "sshline") then run_sshline input
   else if bytes_eqb op (bs "pem") then run_pem input
   else if bytes_eqb op (bs "jks") then run_jks input
   else AL [].
@@ -273,14 +325,65 @@ Fixpoint ssh_want (hosts : bool) (items alone : list arg) : option (list (option
       else ssh_want hosts r alone
   end.
 
+(* what the property calls a blank line and a comment line, typed from the Unicode White_Space property
+   (U+0009..U+000D, U+0020, U+0085, U+00A0, U+1680, U+2000..U+200A, U+2028, U+2029, U+202F, U+205F, U+3000)
+   and sshd(8) ("lines starting with '#' and empty lines are ignored"): the labels of the generated layout
+   are checked against it, so that a line the generator calls harmless really is one *)
+Definition ws_cp (n : N) : bool :=
+  ((9 <=? n) && (n <=? 13)) || (n =? 32) || (n =? 133) || (n =? 160) || (n =? 5760) || ((8192 <=? n) && (n <=? 8202))
+  || (n =? 8232) || (n =? 8233) || (n =? 8239) || (n =? 8287) || (n =? 12288).
+Fixpoint spec_ws_only (l : bytes) : bool :=
+  match l with
+  | [] => true
+  | a :: r =>
+      if a <? 128 then ws_cp a && spec_ws_only r else
+      match r with
+      | b :: r2 =>
+          if (192 <=? a) && (a <? 224) then ws_cp ((a - 192) * 64 + (b - 128)) && spec_ws_only r2 else
+          match r2 with
+          | c :: r3 => (224 <=? a) && (a <? 240) && ws_cp ((a - 224) * 4096 + (b - 128) * 64 + (c - 128)) && spec_ws_only r3
+          | [] => false
+          end
+      | [] => false
+      end
+  end.
+Definition spec_labels_ok (items : list arg) : bool :=
+  forallb (fun it =>
+             let k := arg_Z (arg_nth 0 it) in
+             if (k =? 1)%Z then spec_ws_only (arg_bytes (arg_nth 1 it))
+             else if (k =? 2)%Z then spec_ws_only (arg_bytes (arg_nth 1 it)) && negb (existsb (fun c => c =? 10) (arg_bytes (arg_nth 2 it)))
+             else true) items.
+
 Definition check_ssh (hosts : bool) (input impl : arg) : arg :=
   match arg_nth 4 input with
   | AL [AL items; _; _] =>
+      if negb (spec_labels_ok items) then AS "generator: a line labelled blank or comment is not white space only / white space, '#', text" else
       match ssh_want hosts items (arg_list (arg_nth 5 input)) with
       | Some want =>
           both (check_container (if hosts then "known_hosts" else "authorized_keys")%string
                                 (if hosts then bs "SSH known_hosts" else bs "SSH authorized_keys") want) impl
       | None => AS "an entry of the generated file is not described as an SSH public key when inspected alone"
+      end
+  | _ => AL []
+  end.
+
+(* one line that is a well-formed entry: the library's line parser accepts it and reports the attributes of
+   the key inspected alone (known_hosts: after the host list) *)
+Definition check_sshline (input impl : arg) : arg :=
+  match arg_nth 3 input with
+  | AL [AB hosts_value] =>
+      match obs_info (arg_nth 0 (arg_nth 4 input)) with
+      | Some (Info d at_ []) =>
+          if negb (bytes_eqb d (bs "SSH public key")) then AS "the key of the generated line is not described as an SSH public key when inspected alone"
+          else
+            let want := if arg_bool (arg_nth 0 input) then (bs "Hosts", hosts_value) :: at_ else at_ in
+            match impl with
+            | AL [AZ 0%Z; a] =>
+                if attrs_eqb (attrs_of_arg a) want then AL []
+                else AS "line of an SSH key file: the entry is not described as its key is described when inspected alone (options, quoting or field splitting changed the key, its comment or its hosts)"
+            | _ => AS "line of an SSH key file: a well-formed entry line (options, key type, base64 key, comment) is rejected"
+            end
+      | _ => AS "the key of the generated line cannot be inspected alone"
       end
   | _ => AL []
   end.
@@ -403,6 +506,7 @@ Definition check_jks (input impl : arg) : arg :=
 Definition check_C06 (op : bytes) (input impl : arg) : arg :=
   if bytes_eqb op (bs "akeys") then check_ssh false input impl
   else if bytes_eqb op (bs "khosts") then check_ssh true input impl
+  else if bytes_eqb op (bs "sshline") then check_sshline input impl
   else if bytes_eqb op (bs "pem") then check_pem input impl
   else if bytes_eqb op (bs "jks") then check_jks input impl
   else AL [].
